@@ -18,6 +18,10 @@ Next == UNCHANGED case
 Spec == Init /\ [][Next]_case
 Emit == PrintT(<<"CASE", ToJson(case)>>)
 \* laws: the classes partition their universe
+\* the transcription of chained_indices uses every pair exactly once in contiguous chains, and yields the maximal
+\* paths whenever no label starts or ends more than one pair
+ChainAlgCorrect == case.op = "chain" =>
+    LET ch == ChainAlg(case.pairs) IN ChainsOK(case.pairs, ch) /\ (Simple(case.pairs) => ChainsMaximal(ch))
 Laws == case.op = "voxels" =>
     LET S == {case.cells[j] : j \in 1..Len(case.cells)} IN
     /\ UNION VoxelClasses(S) = S
